@@ -12,7 +12,7 @@ import ast
 
 from ..cfg import known_falsy, known_truthy
 from ..model import self_attr, unparse, walk_body_shallow
-from .util import (expand, value_origins, at, deferred_origins, bootstrap_names, call_name, call_recv, calls_in, need, node_assign_value, norm, real_suspension, registrations, where)
+from .util import (list_adds, expand, value_origins, at, deferred_origins, bootstrap_names, call_name, call_recv, calls_in, need, node_assign_value, norm, real_suspension, registrations, where)
 
 TECHNIQUE = "poison-first dominance, aggregate construction def-use, call-graph dominance of the closing test, " \
             "check-after-yield (G-YIELD)"
@@ -271,6 +271,101 @@ def run(ctx):
                         "%s follows a suspension without a re-check of _closing" % norm(c.func), where(f, c),
                         "close() during that suspension: the loop goes on to dial the next host / write the request; the pending "
                         "operation is not failed", facts=["suspensions before=%d" % len(after)])
+
+    # ---- R7 whatever an operation of the client waits on is ended by close()
+    r = ctx.rule("R7", "every Deferred a client operation waits on is a request to a broker client (closed by close()), another client "
+                       "operation, or one that close() cancels", 3, "A+C")
+    # the containers close() cancels: `for d in <copy of self.X>: d.cancel()`
+    cancelled_sets = set()
+    for st in walk_body_shallow(close.body):
+        if isinstance(st, ast.For) and isinstance(st.target, ast.Name):
+            if any(isinstance(c, ast.Call) and call_name(c) == "cancel" and call_recv(c) == st.target.id for b in st.body for c in ast.walk(b)):
+                got = {self_attr(x) for x in ast.walk(st.iter) if isinstance(x, ast.Attribute) and self_attr(x)}
+                cancelled_sets |= got
+                # cancelling runs the waiter, which takes its Deferred out of the container: iterate over a copy
+                copied = isinstance(st.iter, ast.Call) and (call_name(st.iter) in ("list", "tuple", "sorted", "set", "frozenset", "copy"))
+                r.check(copied or not got, "%s#cancels-over-a-copy" % close.qname, "close() cancels the tracked Deferreds while iterating over the "
+                        "live container (%s)" % norm(st.iter), where(close, st), "the first cancellation removes its entry: RuntimeError (set "
+                        "changed size during iteration) out of close(), the remaining operations are not failed")
+
+    def tracked(f, cff, n, v, origin):
+        # (i) handed to a pass-through wrapper that adds what it is given to a cancelled container
+        x = v
+        while True:
+            w = f.module.wrapped.get(id(x))
+            if w is not None:
+                wf = prog.funcs.get("%s:%s" % (f.module.name, w))
+                if wf is not None:
+                    cw = ctx.cfg(wf)
+                    rets = [m for m in cw.nodes if m.kind == "stmt" and isinstance(m.stmt, ast.Return)]
+                    adds = [m.id for m in cw.nodes if any(call_name(c) in ("add", "append") and self_attr(c.func.value) in cancelled_sets and c.args and
+                                                         isinstance(c.args[0], ast.Name) and c.args[0].id in wf.params for c in m.calls())]
+                    if adds and rets and all(cw.dominates(adds, m.id) for m in rets):
+                        return "via %s" % w
+            if isinstance(x, ast.Call) and isinstance(x.func, ast.Attribute):
+                x = x.func.value
+            else:
+                break
+        # (ii) added to a cancelled container in place, on every path to the wait
+        for m in cff.nodes:
+            for c in m.calls():
+                if call_name(c) in ("add", "append") and self_attr(c.func.value) in cancelled_sets and c.args:
+                    og = deferred_origins(cff, m.id, c.args[0]) or []
+                    if any(o is origin or (isinstance(o, ast.Call) and call_name(o) == "addTimeout" and o.func.value is origin) for o in og) \
+                            and cff.dominates([m.id], n.id):
+                        return "in place"
+        return None
+
+    def classify(f, cff, n, v, depth=0):
+        # -> list of (verdict, text): verdict True (ended by close), False (not), None (not a Deferred the client creates)
+        out = []
+        ogs = deferred_origins(cff, n.id, v)
+        if ogs is None:
+            return [(None, norm(v))]
+        for o in ogs:
+            if not isinstance(o, ast.Call):
+                out.append((None, norm(o)))
+                continue
+            while call_name(o) == "addTimeout" and isinstance(o.func, ast.Attribute) and isinstance(o.func.value, ast.Call):
+                o = o.func.value  # a timeout on the wait does not end it at close()
+            g = prog.resolve_call(f, o)
+            nm = call_name(o)
+            if g is not None and g.cls is ci:
+                out.append((True, "%s (client operation)" % nm))
+            elif nm == "makeRequest":
+                out.append((True, "%s (broker client request)" % nm))
+            elif nm in ("DeferredList", "gatherResults") and o.args and isinstance(o.args[0], ast.Name) and depth < 2:
+                els = [(c_, e_) for acc, e_, _s, _v, c_ in list_adds(f, cff) if acc == o.args[0].id and e_ is not None]
+                if not els:
+                    out.append((None, norm(o)))
+                for c_, e_ in els:
+                    out.extend(classify(f, cff, cff.containing(c_)[0], e_, depth + 1))
+            elif nm in ("succeed", "fail", "maybeDeferred"):
+                out.append((None, norm(o)))
+            else:
+                how = tracked(f, cff, n, v, o)
+                out.append((how is not None, "%s%s" % (nm, " [%s]" % how if how else "")))
+        return out
+
+    n_wait = n_prim = 0
+    for f in sorted([x for x in prog.funcs.values() if x.cls is ci and x.is_inline_callbacks], key=lambda x: x.qname):
+        cff = ctx.cfg(f)
+        for n in cff.nodes:
+            for y in [x for x in n.walk() if isinstance(x, ast.Yield) and x.value is not None]:
+                res = classify(f, cff, n, y.value)
+                n_wait += 1
+                bad = [t for v_, t in res if v_ is False]
+                prim = [t for v_, t in res if v_ is True and "[" in t]
+                n_prim += len(prim)
+                if bad or prim:
+                    r.check(not bad, "%s#wait:%s" % (f.qname, (bad or prim)[0].split(" [")[0]),
+                            "the operation waits on %s, which close() neither owns (a broker client) nor cancels" % ", ".join(bad),
+                            where(f, y), "close() while the operation is waiting there: it is not failed at close - it goes on until the "
+                            "connection attempt, the reply, the request timeout or the back-off timer ends the wait, with the "
+                            "bootstrap connection left open meanwhile", facts=prim)
+    r.info("%d waits of client operations classified; %d on Deferreds that close() cancels (containers: %s)" % (
+        n_wait, n_prim, sorted(cancelled_sets)))
+    need(n_wait >= 8, "suspensions of client operations not found")
 
     # ---- R6 broker client: nothing is (re)scheduled once close() was called (shared with C10.R5/R6)
     r = ctx.rule("R6", "a closed broker client arms no reconnect timer, starts no attempt and accepts no request", 3, "B")
